@@ -17,6 +17,16 @@ import (
 	"github.com/tink-crypto/tink-go/v2/aead"
 	"github.com/tink-crypto/tink-go/v2/daead"
 	"github.com/tink-crypto/tink-go/v2/hybrid"
+	"github.com/tink-crypto/tink-go/v2/internal/config"
+	"github.com/tink-crypto/tink-go/v2/internal/config/aeadconfig"
+	"github.com/tink-crypto/tink-go/v2/internal/config/daeadconfig"
+	"github.com/tink-crypto/tink-go/v2/internal/config/hybridconfig"
+	"github.com/tink-crypto/tink-go/v2/internal/config/jwtmacconfig"
+	"github.com/tink-crypto/tink-go/v2/internal/config/jwtsignatureconfig"
+	"github.com/tink-crypto/tink-go/v2/internal/config/macconfig"
+	"github.com/tink-crypto/tink-go/v2/internal/config/prfconfig"
+	"github.com/tink-crypto/tink-go/v2/internal/config/signatureconfig"
+	"github.com/tink-crypto/tink-go/v2/internal/config/streamingaeadconfig"
 	"github.com/tink-crypto/tink-go/v2/jwt"
 	"github.com/tink-crypto/tink-go/v2/keyset"
 	"github.com/tink-crypto/tink-go/v2/mac"
@@ -60,7 +70,12 @@ type adapter struct {
 	deterministic bool
 	monitored     bool // the factory logs to the monitoring client
 	// fromHandle applies the class factory.  pub is the public keyset handle for asymmetric classes.
-	fromHandle func(priv, pub *keyset.Handle) (*prim, error)
+	// cfg nil = the default factory (global registry); otherwise the ...WithConfig factory.
+	fromHandle func(priv, pub *keyset.Handle, cfg keyset.Config) (*prim, error)
+	// v0 is the class's V0 configuration and v0Types the key types it registers (read off
+	// /repo/internal/config/*config): keysets of only these types can also be served through it.
+	v0      func() keyset.Config
+	v0Types map[string]bool
 	// legacyModel is the harness's model of a harness-owned legacy key.
 	legacyModel func(e *entry) *prim
 	// cheapRaw: producing many outputs with this prefix-less entry is cheap (prefix-collision search).
@@ -105,11 +120,36 @@ func stripPrefix(e *entry, out []byte) ([]byte, error) {
 
 var always = func(*entry) bool { return true }
 
+func typeSet(names ...string) map[string]bool {
+	m := map[string]bool{}
+	for _, n := range names {
+		m[n] = true
+	}
+	return m
+}
+
+// The V0 configurations and what each registers (/repo/internal/config/<class>config/v0.go).
+func init() {
+	cfg := func(c config.Config) func() keyset.Config { return func() keyset.Config { return &c } }
+	aeadAdapter.v0, aeadAdapter.v0Types = cfg(aeadconfig.V0()), typeSet("AesCtrHmacAead", "AesGcm", "AesGcmSiv", "ChaCha20Poly1305", "XChaCha20Poly1305")
+	daeadAdapter.v0, daeadAdapter.v0Types = cfg(daeadconfig.V0()), typeSet("AesSiv")
+	macAdapter.v0, macAdapter.v0Types = cfg(macconfig.V0()), typeSet("Hmac", "AesCmac")
+	signatureAdapter.v0, signatureAdapter.v0Types = cfg(signatureconfig.V0()), typeSet("Ecdsa", "Ed25519", "MlDsa", "RsaSsaPkcs1", "RsaSsaPss", "SlhDsa")
+	hybridAdapter.v0, hybridAdapter.v0Types = cfg(hybridconfig.V0()), typeSet("EciesAeadHkdf", "Hpke")
+	streamingAdapter.v0, streamingAdapter.v0Types = cfg(streamingaeadconfig.V0()), typeSet("AesGcmHkdfStreaming", "AesCtrHmacStreaming")
+	jwtMACAdapter.v0, jwtMACAdapter.v0Types = cfg(jwtmacconfig.V0()), typeSet("JwtHmac")
+	jwtSigAdapter.v0, jwtSigAdapter.v0Types = cfg(jwtsignatureconfig.V0()), typeSet("JwtEcdsa", "JwtRsaSsaPss", "JwtMlDsa")
+	prfAdapter.v0, prfAdapter.v0Types = cfg(prfconfig.V0()), typeSet("AesCmacPrf", "HkdfPrf", "HmacPrf")
+}
+
 var aeadAdapter = &adapter{
 	name: "aead", class: keys.AEAD, types: keys.Types(keys.AEAD), legacyURL: legacykm.AeadURL, legacyLen: 32,
 	hasPrefix: true, monitored: true, cheapRaw: always,
-	fromHandle: func(h, _ *keyset.Handle) (*prim, error) {
+	fromHandle: func(h, _ *keyset.Handle, cfg keyset.Config) (*prim, error) {
 		p, err := aead.New(h)
+		if cfg != nil {
+			p, err = aead.NewWithConfig(h, cfg)
+		}
 		if err != nil {
 			return nil, err
 		}
@@ -143,8 +183,11 @@ var aeadAdapter = &adapter{
 var daeadAdapter = &adapter{
 	name: "daead", class: keys.DAEAD, types: keys.Types(keys.DAEAD), legacyURL: legacykm.DaeadURL, legacyLen: 64,
 	hasPrefix: true, deterministic: true, monitored: true, cheapRaw: always,
-	fromHandle: func(h, _ *keyset.Handle) (*prim, error) {
+	fromHandle: func(h, _ *keyset.Handle, cfg keyset.Config) (*prim, error) {
 		p, err := daead.New(h)
+		if cfg != nil {
+			p, err = daead.NewWithConfig(h, cfg)
+		}
 		if err != nil {
 			return nil, err
 		}
@@ -178,8 +221,11 @@ var daeadAdapter = &adapter{
 var macAdapter = &adapter{
 	name: "mac", class: keys.MAC, types: keys.Types(keys.MAC), legacyURL: legacykm.MacURL, legacyLen: 32,
 	hasPrefix: true, deterministic: true, monitored: true, cheapRaw: always,
-	fromHandle: func(h, _ *keyset.Handle) (*prim, error) {
+	fromHandle: func(h, _ *keyset.Handle, cfg keyset.Config) (*prim, error) {
 		p, err := mac.New(h)
+		if cfg != nil {
+			p, err = mac.NewWithConfig(h, cfg)
+		}
 		if err != nil {
 			return nil, err
 		}
@@ -218,12 +264,18 @@ var signatureAdapter = &adapter{
 	}(),
 	legacyURL: legacykm.SignerURL, legacyLen: 32, asymmetric: true, hasPrefix: true, monitored: true,
 	cheapRaw: func(e *entry) bool { return e.legacy() || e.info.Type == "Ed25519" },
-	fromHandle: func(h, pub *keyset.Handle) (*prim, error) {
+	fromHandle: func(h, pub *keyset.Handle, cfg keyset.Config) (*prim, error) {
 		s, err := signature.NewSigner(h)
+		if cfg != nil {
+			s, err = signature.NewSignerWithConfig(h, cfg)
+		}
 		if err != nil {
 			return nil, fmt.Errorf("NewSigner: %w", err)
 		}
 		v, err := signature.NewVerifier(pub)
+		if cfg != nil {
+			v, err = signature.NewVerifierWithConfig(pub, cfg)
+		}
 		if err != nil {
 			return nil, fmt.Errorf("NewVerifier: %w", err)
 		}
@@ -257,12 +309,18 @@ var hybridAdapter = &adapter{
 	cheapRaw: func(e *entry) bool {
 		return e.legacy() || (e.info.Type == "Hpke" && e.info.Fields["kem"] == "DHKEM_X25519_HKDF_SHA256")
 	},
-	fromHandle: func(h, pub *keyset.Handle) (*prim, error) {
+	fromHandle: func(h, pub *keyset.Handle, cfg keyset.Config) (*prim, error) {
 		enc, err := hybrid.NewHybridEncrypt(pub)
+		if cfg != nil {
+			enc, err = hybrid.NewHybridEncryptWithConfig(pub, cfg)
+		}
 		if err != nil {
 			return nil, fmt.Errorf("NewHybridEncrypt: %w", err)
 		}
 		dec, err := hybrid.NewHybridDecrypt(h)
+		if cfg != nil {
+			dec, err = hybrid.NewHybridDecryptWithConfig(h, cfg)
+		}
 		if err != nil {
 			return nil, fmt.Errorf("NewHybridDecrypt: %w", err)
 		}
@@ -296,8 +354,11 @@ var hybridAdapter = &adapter{
 
 var streamingAdapter = &adapter{
 	name: "streaming", class: keys.Streaming, types: keys.Types(keys.Streaming),
-	fromHandle: func(h, _ *keyset.Handle) (*prim, error) {
+	fromHandle: func(h, _ *keyset.Handle, cfg keyset.Config) (*prim, error) {
 		p, err := streamingaead.New(h)
+		if cfg != nil {
+			p, err = streamingaead.NewWithConfig(h, cfg)
+		}
 		if err != nil {
 			return nil, err
 		}
@@ -353,8 +414,11 @@ func sameClaims(v *jwt.VerifiedJWT, in *input, err error) error {
 
 var jwtMACAdapter = &adapter{
 	name: "jwtmac", class: keys.JWTMAC, types: keys.Types(keys.JWTMAC), monitored: true,
-	fromHandle: func(h, _ *keyset.Handle) (*prim, error) {
+	fromHandle: func(h, _ *keyset.Handle, cfg keyset.Config) (*prim, error) {
 		p, err := jwt.NewMAC(h)
+		if cfg != nil {
+			p, err = jwt.NewMACWithConfig(h, cfg)
+		}
 		if err != nil {
 			return nil, err
 		}
@@ -381,12 +445,18 @@ var jwtMACAdapter = &adapter{
 
 var jwtSigAdapter = &adapter{
 	name: "jwtsig", class: keys.JWTSignature, types: keys.Types(keys.JWTSignature), asymmetric: true, monitored: true,
-	fromHandle: func(h, pub *keyset.Handle) (*prim, error) {
+	fromHandle: func(h, pub *keyset.Handle, cfg keyset.Config) (*prim, error) {
 		s, err := jwt.NewSigner(h)
+		if cfg != nil {
+			s, err = jwt.NewSignerWithConfig(h, cfg)
+		}
 		if err != nil {
 			return nil, fmt.Errorf("jwt.NewSigner: %w", err)
 		}
 		v, err := jwt.NewVerifier(pub)
+		if cfg != nil {
+			v, err = jwt.NewVerifierWithConfig(pub, cfg)
+		}
 		if err != nil {
 			return nil, fmt.Errorf("jwt.NewVerifier: %w", err)
 		}
